@@ -42,9 +42,9 @@ def model_cfgs(ctx):
     return [("one-env", dict(ONE, TaskIds={"k1", "k2", "k3", "k4", "k5"}, BasicChoices=[{"a"}, {"a", "b"}], HookChoices=HOOKSETS,
                              PendChoices=[False, True], Scripts=SCRIPTS, Ops=OPS - {"CONFIGURE"} | {"RESET"}, DestroyFlags=FLAGS,
                              KillOutcomes={"ack", "silent"}, FaultRoles={"h1"}, MaxCalls=4)),
-            ("lost", dict(Envs={"e1", "e2"}, DetChoices=[{"TPC"}, {"ITS"}], BasicChoices=[{"a"}, {"a", "b"}], HookChoices=[set(), {"h1"}, {"h2"}],
-                          Ops={"START_ACTIVITY"}, DestroyFlags=[set(), {"force"}, {"keep"}], FaultRoles={"a", "b", "h1", "h2"},
-                          FaultKinds={"EXECUTOR_LOST", "AGENT_LOST"}, MaxCalls=3, MaxInFlight=1)),
+            ("lost", dict(ONE, BasicChoices=[{"a"}, {"a", "b"}], HookChoices=[set(), {"h1"}, {"h2"}, {"h1", "h2"}],
+                          Ops={"START_ACTIVITY", "RESET"}, DestroyFlags=FLAGS, FaultRoles={"a", "b", "h1", "h2"},
+                          FaultKinds={"EXECUTOR_LOST", "AGENT_LOST"}, MaxCalls=4)),
             ("create||destroy", dict(Envs={"e1"}, DetChoices=[{"TPC"}], HookChoices=[set(), {"h1"}, {"h1", "h2"}],
                                      Scripts={"ok", "configfail", "launchfail"}, Ops={"START_ACTIVITY"},
                                      DestroyFlags=[set(), {"force"}, {"keep"}], MaxCalls=3, MaxInFlight=2))]
